@@ -11,7 +11,7 @@
    is not bounded by a theorem (the correspondence run compares the two pipelines' rasteriser logs:
    identical for exactly representable input). *)
 From Coq Require Import ZArith Bool List.
-From IVG Require Import SF NumCodec Color Calls Decoder Encoder Render Arc RenderProofs Generator SelProofs RoundTrip MetaRT Transcode.
+From IVG Require Import SF NumCodec Color Calls Decoder Encoder Render Arc RenderProofs Generator SelProofs RoundTrip MetaRT Transcode VbMono.
 Import ListNotations.
 Local Open Scope Z_scope.
 
@@ -39,11 +39,11 @@ Proof. exact SelProofs.helpers_same_calls. Qed.
 Print Assumptions helpers_same_calls.
 
 Theorem via_bytes : forall e0 vb pal body s,
-  wf_vb vb -> viewbox_invalid (qvb vb) = false -> wf_pal pal -> wf_acts false body ->
+  wf_vb vb -> viewbox_invalid vb = false -> wf_pal pal -> wf_acts false body ->
   exists b, snd (enc_bytes (fst (enc_run e0 (ACall (CReset vb pal) :: body)))) = BytesOk b /\
             snd (decode_calls [] b) = Done /\
             rrun32 s (fst (decode_calls [] b)) = rrun32 s (CReset (m_vb (meta_of vb pal)) pal :: expect false false body).
-Proof. exact Transcode.via_bytes. Qed.
+Proof. exact VbMono.via_bytes_valid. Qed.
 Print Assumptions via_bytes.
 
 (* the failing history of the repaired defect: SetCSel 63 then 12 incrementing writes *)
